@@ -64,6 +64,20 @@ pub fn configs() -> Vec<(String, BuildSpec)> {
     s.scripts.insert("pre_install", ScriptSpec { script: "true".into(), flags: None, prog: None });
     s.deps.insert("requires", vec![DepSpec { ctor: "any", name: "x".into(), version: "".into() }]);
     v.push(("5 users, gzip, scriptlet, dependency".into(), s));
+    // several optional rpmlib features at once: default (zstd) compression, file capabilities, large-file layout
+    let mut s = v[3].1.clone();
+    s.name = "c3features".into();
+    s.compression = Comp::Zstd(3);
+    s.large_files = true;
+    for f in s.files.iter_mut() {
+        f.caps = Some("cap_net_raw=ep".into());
+    }
+    v.push(("3 users, zstd-3 payload + file capabilities + large-file layout (three optional rpmlib features)".into(), s));
+    let mut s = v[2].1.clone();
+    s.name = "c2features".into();
+    s.compression = Comp::Zstd(1);
+    s.files[0].caps = Some("cap_chown=p".into());
+    v.push(("2 users, zstd payload + file capabilities".into(), s));
     // the same dependency given more than once, and the dependencies the builder derives from file owners given by hand as well
     let mut s = v[3].1.clone();
     s.name = "c3dups".into();
